@@ -99,10 +99,17 @@ def execute(ctx, case):
     l, u = float(case["lu"][0]), float(case["lu"][1])
     C(abs(s.auc(l, u) - mt.auc(l, u)) <= 1e-9, "partial AUC differs", "easy-pauc", lower=l, upper=u, easy=s.auc(l, u), materialised=mt.auc(l, u))
     rs = case["rs"]
-    for m in METRICS:
+    rs0 = rs.copy()
+    for j_, m in enumerate(METRICS):
         rel = {"tpr": pos, "fnr": pos, "tnr": neg, "fpr": neg}.get(m, allv)
-        tm = np.asarray(getattr(mt, "threshold_at_" + m)(rs))
-        te = np.asarray(getattr(s, "threshold_at_" + m)(rs))
+        # one and the same target array goes to both objects (in alternating order): what one call does to it would show in the other
+        if j_ % 2:
+            tm = np.asarray(getattr(mt, "threshold_at_" + m)(rs))
+            te = np.asarray(getattr(s, "threshold_at_" + m)(rs))
+        else:
+            te = np.asarray(getattr(s, "threshold_at_" + m)(rs))
+            tm = np.asarray(getattr(mt, "threshold_at_" + m)(rs))
+        C(np.array_equal(rs, rs0), "threshold setting changed the caller's target array", "easy-thr-args", metric=m, targets_before=rs0, targets_after=rs.copy())
         inside = (tm >= rel.min()) & (tm <= rel.max())
         if inside.any():
             C(monitors.close_thr(tm[inside], te[inside], span), "thresholds differ for a target whose materialised threshold lies within the scored range", "easy-thr",
